@@ -23,6 +23,7 @@ import AnnetModel.Lemmas.ConvergeNested
 import AnnetModel.Lemmas.ConvergeNestedPaths
 import AnnetModel.Lemmas.ConvergeNestedExample
 import AnnetModel.Lemmas.ConvergeNestedSecond
+import AnnetModel.Lemmas.ConvergeNestedChain
 
 /-! OBLIGATIONS
 Annet.Device.C01_put_refines
@@ -39,6 +40,7 @@ Annet.Device.C01_nested_converges
 Annet.Device.C01_nested_converges_paths
 Annet.Device.C01_nested_second_run_empty
 Annet.Device.C01_same_lines_diff_empty
+Annet.Device.C01_chain_converges
 Annet.Device.C01_nested_converges_nonvacuous
 Annet.Device.C01_full_false_permanent
 Annet.Device.C01_full_false_ignore_changes
@@ -224,6 +226,18 @@ theorem C01_same_lines_diff_empty (rules : PRules) (a b : Cfg)
     (hs : ConvergeNested.SameC rules a b) :
     ∃ d, Diff.makeDiff rules a b = .ok d ∧ Diff.stripUnchanged d = [] :=
   ConvergeNested.Lemmas.same_diff_empty rules a b hr hga hgb hs
+
+/-- ALONG CHAINS OF TARGETS (the property's quantifier): deploying target after target — each patch computed by the
+pipeline against the device state the previous patch left — the device stays a configuration of the kind the theorem
+quantifies over and, after the last step, agrees with the last target.  (A kernel-checked two-step chain
+`old → new → old` on the closed instance is in `Lemmas/ConvergeNestedChain.lean`.) -/
+theorem C01_chain_converges (v : Vendor) (env : Env) (rules : PRules) (ordering : List ORule)
+    (hr : ConvergeNested.NestedRules rules) (hc : ConvergeNested.CmdsOKAll v env rules) (hp : Converge.NoPin ordering)
+    (old : Cfg) (targets : List Cfg) (last : Cfg) (final : Cfg)
+    (hgo : ConvergeNested.GoodC rules old) (hgt : ∀ t ∈ targets ++ [last], ConvergeNested.GoodC rules t)
+    (hres : ConvergeNested.Lemmas.deployChain v env rules ordering old (targets ++ [last]) = some final) :
+    ConvergeNested.GoodC rules final ∧ ConvergeNested.SameC rules final last :=
+  ConvergeNested.Lemmas.chain_converges v env rules ordering hr hc hp old targets last final hgo hgt hres
 
 /-- Non-vacuity of `C01_nested_converges`: a three-level instance (interfaces with sub-blocks; one block removed,
 one added, one changed at two levels, one unchanged) meets every hypothesis, so the theorem applies to it. -/
